@@ -2,3 +2,11 @@ add("C15", "symbolic execution of quadrature.gauss* with exact algebraic literal
     "Bounded symbolic model checking: every accepted (dim, order) rule on both cells is executed from source with exact literals; one unsat query per rule covers all polynomials of the nominal degree (coefficients are unbounded reals). Exhaustive over the finite configuration space, universal over polynomials.",
     "Trusts z3's nonlinear real arithmetic, the literal lifting (float literal text -> rational, np.sqrt -> algebraic root) and the symx shims (validated against the plain import on every run). IEEE rounding of the tables is outside (replay compares at 1e-9).",
     "DESIGN.md §5 C15")
+add("C06", "symbolic execution of Grid/FV operators (symx): voxel sizes, fluxes, cell fields and evaluation point are z3 reals; each identity is an unsat query against closed-form index arithmetic",
+    "Bounded symbolic model checking: for every enumerated grid shape the real FVDivergence / FVMass / face_to_cell / cell_to_face_average / tangential reconstruction are executed on symbolic voxel sizes, fluxes, fields and evaluation point; the divergence theorem, adjointness, RT0 interpolation, means and constant reproduction hold for ALL real values (unsat), shapes bounded as stated in the evidence.",
+    "Trusts z3 (QF_NRA), the scipy.sparse stand-in (structure from real scipy shadows) and numpy shims, validated against the plain import each run; hmean is a contract stub; exact reals instead of doubles.",
+    "DESIGN.md §5 C06")
+add("C07", "real Grid._setup tables loaded as finite functions; bijection / inverse / partition / corner statements asserted for symbolic face, cell and side indices and decided by z3 (QF_LIA); shapes enumerated",
+    "Bounded model checking over an enumerated configuration space: per shape, z3 decides each statement for all index values at once against closed-form Fortran numbering; generate_grid with symbolic dimensions. The solver's role is weak here (finite tables), stated in DESIGN.md.",
+    "Shapes are enumerated, not symbolic; trusts z3 integer arithmetic with div/mod by constants and the closed-form oracle in checks/oracles.py.",
+    "DESIGN.md §5 C07")
